@@ -32,3 +32,8 @@ PROPS = {
         "assumptions": COMMON_ASSUMPTIONS,
     },
 }
+
+HOOK_COMMITS = ["1c7f22f"]
+NOT_CLAIMED = {}
+NOTES = ("Driver: ./check <ID> quick|thorough|--replay <file>; exit 0 held / 1 violation / 2 inconclusive. "
+         "Fix commits in /repo: 18e7710 (C16/C13), 2b5696f (C06), 531f665 (C10), 1b87bca (C08); see known_findings.json and DESIGN.md section 6.")
